@@ -125,8 +125,18 @@ def gen(rng, tier, mult=1):
     # (b) packets injected into transfers
     m = (1200 if tier == "quick" else 20000) * mult
     for i in range(m):
-        yield T.gen_transfer_case(rng, script_style=["abort", "abort", "faulty", "random"][i % 4], simple_cfg=True,
-                                  bs_choices=[8, 16], fault=(i % 7 == 0))
+        c = T.gen_transfer_case(rng, script_style=["abort", "abort", "faulty", "random"][i % 4], simple_cfg=True,
+                                bs_choices=[8, 16], fault=(i % 7 == 0))
+        # non-interference on the implementation itself: foreign datagrams handled in no time; the same transfer is
+        # run again on the script without them and the client's views must coincide (C09.foreign_noninterference)
+        sc = c.get("script", [])
+        if any(e[0] == "pkt" and e[3] != 0 for e in sc):
+            sc0 = [e if e[0] == "silence" or e[3] == 0 else ["pkt", e[1], 0, e[3], e[4]] for e in sc]
+            if T.foreign_ok(sc0) and rng.random() < 0.7:
+                c["script"] = sc0
+                c["twin_script"] = T.drop_foreign(sc0)
+                c["_meta"]["twin"] = True
+        yield c
     for i in range(60 if tier == "quick" else 1500):
         yield T.gen_multi_case(rng)
 
